@@ -26,11 +26,11 @@ import LitexModel.Generated.Keywords
   | verilog._generate_attribute (`sorted(attr, key=…)`, attr_translate)     | Emit: emitAttrs                   | emitAttrs_perm_partial/_strings (+ neg. witness) | M  emitattrs (11 real tables) + corpus |
   | verilog._generate_module: ports `sorted(ios, key=get_name)`             | Emit: declOrder                   | declOrder_perm_partial, declOrder_namespace_perm | M  declorder                        |
   | verilog._generate_signals: `sorted(sigs - ios, key=get_name)`           | Emit: declOrder                   | same                                            | M  declorder                         |
-  | verilog._generate_combinatorial_logic_synth: reset lines sorted by name | Emit: declOrder                   | same                                            | V  emission corpus                   |
-  | verilog._generate_combinatorial_logic_sim: dict of targets (set order of list_targets) | -                  | -                                               | V  emission corpus (regular_comb=False) |
+  | verilog._generate_combinatorial_logic_synth: default-assignment lines `sorted(g[0], key=get_name)` | Emit: declOrder | defaultLines_perm, declOrder_perm_partial | M  declorder (every multi-target always block of every convert() run) + DUID-offset corpus |
+  | verilog._generate_combinatorial_logic_sim: dict of targets filled in set order of list_targets (DUID-hash order) | - | - | V  corpus across hash seeds; DUID-offset dependent on the unchanged tree: candidate C02-tie-order (b) |
   | verilog._generate_synchronous_logic: `sorted(f.sync.items())`           | Emit: declOrder (domain names)    | same                                            | V  emission corpus (3 clock domains) |
   | verilog._generate_specials: `sorted(specials, key=duid)`                | Emit: duidOrder                   | duidOrder_perm_partial                          | M  duidorder                         |
-  | first-request order of get_name = iteration order of the Signal sets    | explicit input `reqs`             | (witness: suffixes swap)                        | note (outside the property statement) |
+  | first-request order of get_name = iteration order of the Signal sets `ios` / `sigs - ios` (DUID-hash order) | explicit input `reqs` | (witness: suffixes swap) | candidate C02-tie-order (a): DUID-offset corpus, tie designs classified |
   | memory.py: helper registers `<mem>_adr<n>` / `<mem>_dat<n>` via get_name | Emit: memHelpers, Obj.adr/.dat   | class_injective/_legal/_not_reserved, adrBase_inj, datBase_inj, adrBase_ne_datBase | M  helpers, classanswers |
   | memory.py: data file `<top>_<mem>.init`                                 | -                                 | -                                               | V  monitor data_file_failures        |
   | instance.py: instance identifier                                        | Emit: Obj.inst                    | class_*                                         | M  classanswers                      |
@@ -429,6 +429,16 @@ theorem declOrder_namespace_perm (kw : List String) (base : SigId → String) (r
   subst this
   rfl
 
+
+/-- **Default-assignment lines** of a multi-target `always @(*)` block (`for t in sorted(g[0], key=get_name)` in
+    `_generate_combinatorial_logic_synth`): for every namespace history and every iteration order of the target set
+    `g[0]` (a set of DUID-hashed Signals, so its order moves with the absolute DUIDs) the lines come out in one
+    order. -/
+theorem defaultLines_perm (kw : List String) (base : SigId → String) (reqs : List SigId)
+    {targets₁ targets₂ : List SigId} (h : targets₁.Perm targets₂) (hreq : ∀ s ∈ targets₁, s ∈ reqs) :
+    let nm := fun s => (((runFixed kw base reqs).sigs.lookup s).map (suffixed (base s))).getD ""
+    declOrder (targets₁.map fun s => (s, nm s)) = declOrder (targets₂.map fun s => (s, nm s)) :=
+  declOrder_namespace_perm kw base reqs h hreq
 
 /-- **Specials** (`sorted(specials, key=duid)`, also the visiting order of the IO naming step): independent of
     the iteration order of the set; DUIDs identify the objects. -/
